@@ -137,7 +137,7 @@ MSpec == MInit /\ [][MNext]_mvars /\ Fairness
 \* a subscribed, live plugin in the list gets each completed, un-vetoed request exactly once
 Delivered ==
   \A c \in Callers :
-     (cpc[c] = "locked" /\ rlock = c /\ RelayDone /\ ~cur.veto) =>
+     (cpc[c] = "locked" /\ rlock = c /\ RelayDone /\ cur.veto = "no") =>
         \A k \in DOMAIN cur.plist :
            LET p == cur.plist[k] IN
            (cur.ev \in mask[p] /\ p \notin dead) =>
